@@ -1071,7 +1071,7 @@ func (c *Ctx) runArgIndex(r *Report, rule string, pkgs func(string) bool, except
 	ord := map[string]int{}
 	sort.SliceStable(sites, func(i, j int) bool { return sites[i].Expr.Pos() < sites[j].Expr.Pos() })
 	for _, s := range sites {
-		cons := s.Fn.id() + ":" + types.ExprString(s.Expr)
+		cons := s.Fn.id() + ":" + noSpace(types.ExprString(s.Expr))
 		ord[cons]++
 		if ord[cons] > 1 {
 			cons += "#" + itoa(ord[cons])
